@@ -1,7 +1,7 @@
 #![allow(non_camel_case_types, non_snake_case, dead_code)]
 #[tarpc::service]
 pub trait Rej76 {
-    async fn ab(a0: i32);
-    async fn a1(ctx: tarpc::context::Context);
+    async fn a1(a0: i32, a1: String) -> String;
+    async fn a_b_(ctx: tarpc::context::Context);
 }
 fn main() {}
